@@ -457,6 +457,10 @@ def check_C04(A, R, tier):
     # R4.11: ... and no fast path switches the lookup off
     from rules_compare import rule_rename_lookup_finds
     rule_rename_lookup_finds(A, R, "R4.11")
+    # R4.12 (= R3.1e/R3.2e/R3.4e): a job that the startup classification invalidates declares its incoming dependencies as needed
+    # (otherwise the up-to-date Ephemerals it is going to consume are skipped, or run only thanks to a later, timing-dependent repair)
+    from rules_compare import rule_startup_detectors
+    rule_startup_detectors(A, R, rename={"R3.1e": "R4.12", "R3.2e": "R4.12", "R3.4e": "R4.12"})
     sk = skip_kind(A)
     cleanup_kinds = set(A.kind_of(s) for s in C["CleanupOffered"])
     skippable = set(A.kind_of(s) for s in (C["Finished"] - C["FailedLike"]) if reachable_without_running(A, s) and s in reach)
